@@ -153,7 +153,16 @@ class Sim:
 
     def raw_add(self, path, route):
         if route == 'mem':
-            resource = wn.lmf.load(path, progress_handler=SimHandler)
+            # callers may keep a loaded resource and hand the same object in again later
+            cache = self.__dict__.setdefault('_mem_resources', {})
+            key = getattr(self, '_mem_key', None)
+            if key is not None and key in cache:
+                resource = cache[key]
+                self.probe('mem-resource-reused')
+            else:
+                resource = wn.lmf.load(path, progress_handler=SimHandler)
+                if key is not None:
+                    cache[key] = resource
             wn.add_lexical_resource(resource, progress_handler=SimHandler)
         else:
             wn.add(path, progress_handler=SimHandler)
@@ -173,6 +182,8 @@ class Sim:
         W = self.W
         W.begin_op(budget=self.budget, record=bool(op.get('record')))
         self._arm(None if f6 else op.get('fault'))
+        self._mem_key = (op['res'], op.get('quote', '"')) if (
+            route == 'mem' and not op.get('style') and not op.get('fault')) else None
         _, exc = self.call(self.raw_add, path, route)
         counters = dict(W.counters)
         fired = W.end_op()
